@@ -259,20 +259,24 @@ func (d *Decoder) readObjectDef() (interface{}, error) {
 	//add to slice
 	d.clsDefList = append(d.clsDefList, clsD)
 
-	tag, err := d.readTag()
-	if err != nil {
-		hlog.Debugf("reading tag err:%v", err)
-		return nil, err
-	}
+	// value ::= class-def value: what follows is any value - usually the first instance,
+	// but also another definition or a value that only contains the instances
+	return d.ReadData()
+}
 
-	if objectLenTag(tag) {
-		return d.ReadLenTagObject(tag)
+// readValueTag read the tag of the next value, taking in the class definitions in front of it
+func (d *Decoder) readValueTag() (byte, error) {
+	for {
+		tag, err := d.readTag()
+		if err != nil || tag != _objectDefTag {
+			return tag, err
+		}
+		clsDef, err := d.readClassDef()
+		if err != nil {
+			return 0, err
+		}
+		d.clsDefList = append(d.clsDefList, clsDef.(ClassDef))
 	}
-
-	if tag == _objectTag {
-		return d.readTagObject()
-	}
-	return nil, newCodecError("readObjectDef", "unknown tag after class def: 0x%x", tag)
 }
 
 // var readObjectIndex = 0
@@ -316,9 +320,17 @@ func (d *Decoder) readField(fldName string, fldValue reflect.Value) error {
 	sourceValue := fldValue
 	typ := UnpackPtrType(fldValue.Type())
 	fldValue = UnpackPtrValue(fldValue)
+
+	// class definitions may stand in front of any value, not only in front of an instance
+	tag, err := d.readValueTag()
+	if err != nil {
+		return err
+	}
+	flag := int32(tag)
+
 	switch typ.Kind() {
 	case reflect.String:
-		str, err := d.readString(_tagRead)
+		str, err := d.readString(flag)
 		if err != nil {
 			return err
 		}
@@ -326,53 +338,53 @@ func (d *Decoder) readField(fldName string, fldValue reflect.Value) error {
 			fldValue.SetString(str)
 		}
 	case reflect.Int32, reflect.Int, reflect.Int16, reflect.Int8:
-		i, err := d.readInt(_tagRead)
+		i, err := d.readInt(flag)
 		if err != nil {
 			return err
 		}
 		v := int64(i)
 		fldValue.SetInt(v)
 	case reflect.Uint8, reflect.Uint16:
-		i, err := d.readInt(_tagRead)
+		i, err := d.readInt(flag)
 		if err != nil {
 			return err
 		}
 		v := uint64(i)
 		fldValue.SetUint(v)
 	case reflect.Int64:
-		i, err := d.readLong(_tagRead)
+		i, err := d.readLong(flag)
 		if err != nil {
 			return err
 		}
 		fldValue.SetInt(i)
 	case reflect.Uint64, reflect.Uint, reflect.Uint32:
-		i, err := d.readLong(_tagRead)
+		i, err := d.readLong(flag)
 		if err != nil {
 			return err
 		}
 		fldValue.SetUint(uint64(i))
 	case reflect.Bool:
-		b, err := d.readBoolean(_tagRead)
+		b, err := d.readBoolean(flag)
 		if err != nil {
 			return err
 		}
 		fldValue.SetBool(b)
 	case reflect.Float32, reflect.Float64:
-		f, err := d.readDouble(_tagRead)
+		f, err := d.readDouble(flag)
 		if err != nil {
 			return err
 		}
 		fldValue.SetFloat(f)
 	case reflect.Struct:
-		s, err := d.readStruct()
+		s, err := d.readStructTag(tag)
 		if err != nil {
 			return err
 		}
 		SetValue(sourceValue, EnsureRawValue(s))
 	case reflect.Map:
-		return d.readMap(sourceValue)
+		return d.readMap(sourceValue, tag)
 	case reflect.Slice, reflect.Array:
-		m, err := d.ReadList(_tagRead)
+		m, err := d.ReadList(flag)
 		if err != nil {
 			if err == io.EOF {
 				break // ignore nil slice
